@@ -15,7 +15,8 @@ from mcheck.core.runner import Ctx, Result, Violation
 from mcheck.props import applycommon as AC
 
 ID = "C16"
-PLACEMENTS = ["top", "after_docstring", "after_future", "in_function", "in_type_checking", "after_code", "type_checking_in_try", "in_try", "in_with", "in_for", "in_class", "next_to_if_on_call_attribute"]
+PLACEMENTS = ["top", "after_docstring", "after_future", "in_function", "in_type_checking", "after_code", "type_checking_in_try", "in_try", "in_with", "in_for", "in_class", "next_to_if_on_call_attribute", "type_checking_else", "late_type_checking_import"]
+DIFF_PLACEMENTS = ["top", "in_function", "in_type_checking", "type_checking_else", "late_type_checking_import", "in_try"]   # quick tier: differential against the unconfined application
 FORMS = ["import_pkg", "import_sub", "from_import", "from_import_as", "from_star", "import_as"]
 USES = [True, False]
 STUBKINDS = ["new_user_module", "typing_name", "already_imported_name", "typed_dict", "same_module_other_name", "no_new_import", "user_module_named_like_typing", "same_short_name_other_module"]
@@ -59,6 +60,12 @@ def gen_source(pl: str, form: str, use: bool) -> Tuple[str, str]:
         L += ["import os", stmt, "try:", "    from typing import TYPE_CHECKING", "except ImportError:", "    TYPE_CHECKING = False"]
     elif pl == "after_code":
         L += ["import os", "VALUE = os.sep", stmt]
+    elif pl == "type_checking_else":
+        # the import is a RUNTIME import in the else branch of a TYPE_CHECKING test (a type checker reads the other branch)
+        L += ["import os", "from typing import TYPE_CHECKING", "if TYPE_CHECKING:", "    import os.path as _ospath", "else:", "    " + stmt]
+    elif pl == "late_type_checking_import":
+        # TYPE_CHECKING itself is imported late, after the first non-import statement
+        L += ["import os", stmt, "VALUE = os.sep", "from typing import TYPE_CHECKING", "if TYPE_CHECKING:", "    import os.path as _ospath", "VALUE2 = 2"]
     elif pl == "next_to_if_on_call_attribute":
         # an ordinary module-level `if` whose test is an attribute of a call result (`if get_settings().debug:`)
         L += ["import os", stmt, "class _Settings:", "    debug = False", "def _settings():", "    return _Settings()", "if _settings().debug:", "    VALUE = os.sep", "if os.path.sep:", "    VALUE2 = 1"]
@@ -124,7 +131,7 @@ def make_traces(mod, kind: str):
 RUNTIME_OK = {("typing", None), ("__future__", "annotations")}
 
 
-def check(src: str, stub: str, res: str, case: Dict[str, Any]) -> List[Tuple[str, str, str]]:
+def check(src: str, stub: str, res: str, case: Dict[str, Any], plain: Optional[str] = None) -> List[Tuple[str, str, str]]:
     out: List[Tuple[str, str, str]] = []
     tag = f"{case['form']}@{case['placement']}"
     try:
@@ -165,15 +172,29 @@ def check(src: str, stub: str, res: str, case: Dict[str, Any]) -> List[Tuple[str
             out.append(("confinement", "new-import-not-confined:" + case["stub"], f"new import {item[:3]} needed only by annotations sits at module level"))
     # 3b. whatever the stub imports for its annotations is imported SOMEWHERE in the result (module level, TYPE_CHECKING
     #     block, or bound by an import the source already had): an annotation must not lose its import on the way
-    have = {(i[0], i[1]) for i in rinv} | {(i[0], "*") for i in rinv if i[1] == "*"}
+    seen = rinv
+    have = {(i[0], i[1]) for i in seen} | {(i[0], "*") for i in seen if i[1] == "*"}
     for smod, sname in sorted(stub_imps):
         if smod in ("typing", "__future__", "mypy_extensions") or smod == case.get("own_module"):
             continue
-        if (smod, sname) in have or (smod, "*") in have or (smod, "") in have or any(i[0] == smod and i[1] == "" for i in rinv):
+        if (smod, sname) in have or (smod, "*") in have or (smod, "") in have or any(i[0] == smod and i[1] == "" for i in seen):
             continue
-        if any(i[0].startswith(smod.split(".")[0]) and i[1] == "" for i in rinv):
+        if any(i[0].startswith(smod.split(".")[0]) and i[1] == "" for i in seen):
             continue   # libcst may import the module (`import a.b`) instead of the name to avoid a clash
         out.append(("confinement", "stub-import-lost:" + case["stub"], f"the stub imports {sname} from {smod}; the result imports it nowhere (neither at module level nor under TYPE_CHECKING)"))
+    # 3c. differential against the same application WITHOUT confinement: confinement moves the imports the application
+    #     introduces, it never drops one - each import that the plain application adds is, in the confined result, either at
+    #     module level or in the true branch of a module-level `if TYPE_CHECKING:`
+    if plain is not None:
+        try:
+            pinv = AC.import_inventory(ast.parse(plain))
+        except SyntaxError:
+            pinv = []
+        for item in pinv:
+            if item in okeys or item[0] == "__future__":
+                continue
+            if not any(r[:3] == item[:3] and r[3] in ("module", "type_checking") for r in rinv):
+                out.append(("confinement", "introduced-import-dropped:" + case["stub"], f"without confinement the application adds the import {item[:3]} (at {item[3]}); with confinement the result has it neither at module level nor under `if TYPE_CHECKING:`"))
     # 4. the result executes and behaves as before
     ns_o: Dict[str, Any] = {"__name__": "c16_orig"}
     ns_r: Dict[str, Any] = {"__name__": "c16_res"}
@@ -224,7 +245,14 @@ def run_case(res: Result, ctx: Ctx, ci: int, c, srcdir: Path) -> None:
     res.evaluations += 1
     res.validated += 1
     res.transitions += 4
-    vs = check(src, stub, result, case)
+    plain = None
+    if not ctx.quick or pl in DIFF_PLACEMENTS:
+        try:
+            plain = apply_stub_using_libcst(stub=stub, source=src, overwrite_existing_annotations=ow, confine_new_imports_in_type_checking_block=False)
+            res.transitions += 1
+        except Exception:  # noqa: BLE001
+            plain = None
+    vs = check(src, stub, result, case, plain)
     for kind, sig, msg in vs:
         res.violate(Violation(ID, kind, sig, case, msg + f"\n--- source ---\n{src[:400]}\n--- stub ---\n{stub[:300]}\n--- result ---\n{result[:600]}"))
     if not vs:
@@ -330,6 +358,58 @@ def seq_cases() -> List[Tuple[str, str]]:
     return [(pl, fo) for pl in PLACEMENTS for fo in FORMS if pl != "in_class"]
 
 
+def history_pairs(quick: bool = False) -> List[Tuple[int, int]]:
+    """Ordered pairs of case indices for histories of two applications to two DIFFERENT modules in one fresh process: one
+    whose source already confines an import under `if TYPE_CHECKING:` (or holds it in the else branch) and one whose stub
+    introduces that import anew - in both orders."""
+    cs = all_cases()
+    idx = {c: i for i, c in enumerate(cs)}
+    firsts = [idx[(pl, fo, False, sk, False)] for pl in ("in_type_checking", "type_checking_else") for fo in ("from_import", "import_pkg", "from_import_as") for sk in ("new_user_module", "already_imported_name")]
+    seconds = [idx[(pl, fo, True, sk, False)] for pl in ("top", "in_function", "after_future") for fo in ("from_import", "import_sub") for sk in ("new_user_module", "already_imported_name", "same_module_other_name")]
+    if quick:
+        firsts = [idx[(pl, fo, False, "already_imported_name", False)] for pl in ("in_type_checking", "type_checking_else") for fo in ("from_import", "import_pkg")]
+        seconds = [idx[(pl, fo, True, sk, False)] for pl in ("top", "in_function") for fo in ("from_import", "import_sub") for sk in ("new_user_module", "already_imported_name")]
+    return [(a, b) for a in firsts for b in seconds] + [(b, a) for a in firsts for b in seconds]
+
+
+def run_history(ctx: Ctx, pair: Tuple[int, int]) -> Result:
+    """(in a fresh process) apply to the module of case a, then to the module of case b; both judged as usual."""
+    cs = all_cases()
+    res = Result()
+    srcdir = ctx.tmp / f"c16_h_{pair[0]}_{pair[1]}"
+    srcdir.mkdir(exist_ok=True)
+    sys.path.insert(0, str(srcdir))
+    for ci in pair:
+        sub = Result()
+        run_case(sub, ctx, ci, cs[ci], srcdir)
+        for v in sub.violations:
+            v.case = dict(v.case, history=list(pair))
+            v.sig = "two-modules-in-one-process:" + v.sig
+            v.msg = f"history of applications to the modules of cases {list(pair)} in one process; at case {ci}: " + v.msg
+        res.merge(sub)
+    return res
+
+
+def run_histories(ctx: Ctx) -> Result:
+    import multiprocessing as mp
+
+    from mcheck.core import par
+
+    pairs = history_pairs(ctx.quick)
+    total = Result()
+    mpc = mp.get_context("fork")
+    with mpc.Pool(ctx.workers, initializer=par._init, initargs=(run_history, ctx), maxtasksperchild=1) as pool:
+        outs = pool.map(par._call, pairs, chunksize=1)
+    for o in outs:
+        if isinstance(o, tuple) and o and o[0] == "ERR":
+            from mcheck.core.runner import HarnessError
+
+            raise HarnessError("history worker crashed:\n" + o[1])
+        total.merge(o)
+    total.oblige("saw:two-module-histories", len(pairs) > 0)
+    return total
+
+
 def run(ctx: Ctx) -> Result:
     cs = all_cases()
     nshards = ctx.workers * 2
@@ -352,6 +432,8 @@ def run(ctx: Ctx) -> Result:
         return res
 
     res = run_shards(ctx, shard, list(range(nshards)))
+    res.merge(run_histories(ctx))
+    res.obligations.setdefault("saw:two-module-histories", False)
     res.obligations.setdefault("saw:type-checking-block", False)
     res.obligations.setdefault("saw:second-apply", False)
     res.obligations.setdefault("saw:relative-import-source", False)
@@ -364,6 +446,8 @@ def replay(case: Dict[str, Any], ctx: Ctx) -> List[Violation]:
     srcdir = ctx.tmp / "c16_replay"
     srcdir.mkdir(exist_ok=True)
     sys.path.insert(0, str(srcdir))
+    if case.get("history"):
+        return run_history(ctx, tuple(case["history"])).violations
     if case.get("ci") == -2:
         rl = [(pl, sk) for pl in REL_PLACEMENTS for sk in REL_STUBS]
         run_rel(res, ctx, case["rel"], rl[case["rel"]][0], rl[case["rel"]][1], srcdir)
